@@ -399,6 +399,9 @@ pub struct PooledCase {
     pub request_after_ms: u16,
     /// further non-overlapping requests afterwards
     pub more_requests: u8,
+    /// Some(s): the pool's own periodic housekeeping runs with this check interval (idle timeout 60 s)
+    #[serde(default)]
+    pub periodic_s: Option<u16>,
 }
 
 pub struct PooledFam;
@@ -409,8 +412,8 @@ impl Family for PooledFam {
         "pooled"
     }
     fn strategy(&self, _tier: Tier) -> BoxedStrategy<PooledCase> {
-        (1u8..4, proptest::collection::vec(prop_oneof![Just(10u16), Just(60), Just(400), Just(990)], 0..4), 1u8..3, prop_oneof![Just(5u16), Just(59), Just(61), Just(200)], prop_oneof![Just(0u16), Just(1), Just(40), Just(60), Just(100), Just(500), 0u16..1500], 0u8..3)
-            .prop_map(|(healthy, slow_closers, min_idle, idle_s, request_after_ms, more_requests)| PooledCase { healthy, slow_closers, min_idle, idle_s, request_after_ms, more_requests })
+        (1u8..4, proptest::collection::vec(prop_oneof![Just(10u16), Just(60), Just(400), Just(990)], 0..4), 1u8..3, prop_oneof![Just(5u16), Just(59), Just(61), Just(200)], prop_oneof![Just(0u16), Just(1), Just(40), Just(60), Just(100), Just(500), 0u16..1500], 0u8..3, proptest::option::weighted(0.4, prop_oneof![Just(1u16), Just(10), Just(30), Just(45)]))
+            .prop_map(|(healthy, slow_closers, min_idle, idle_s, request_after_ms, more_requests, periodic_s)| PooledCase { healthy, slow_closers, min_idle, idle_s, request_after_ms, more_requests, periodic_s })
             .boxed()
     }
     fn run(&self, case: &PooledCase, _cx: &CaseCtx) -> CaseResult {
@@ -421,9 +424,11 @@ impl Family for PooledFam {
             let tls = Arc::new(tokio_rustls::TlsConnector::from(anytls_rs::util::tls::create_client_config().expect("client tls config")));
             let name = tokio_rustls::rustls::pki_types::ServerName::try_from("localhost").unwrap();
             // nothing listens where this client would dial: a request that is not served from the pool fails
-            let cfg = SessionPoolConfig { check_interval: Duration::from_secs(100_000), idle_timeout: Duration::from_secs(60), min_idle_sessions: case.min_idle as usize };
+            let cfg = SessionPoolConfig { check_interval: Duration::from_secs(case.periodic_s.map(|s| s as u64).unwrap_or(100_000)), idle_timeout: Duration::from_secs(60), min_idle_sessions: case.min_idle as usize };
             let client = Arc::new(anytls_rs::client::Client::with_pool_config("pw", "127.0.0.1:1".to_string(), name, tls, default_padding(), cfg));
-            client.stop_session_pool_cleanup().await;
+            if case.periodic_s.is_none() {
+                client.stop_session_pool_cleanup().await;
+            }
             let pool = client.verif_session_pool();
             let syns: Arc<Mutex<Vec<(usize, u32)>>> = Default::default();
             let mut keep = Vec::new();
@@ -461,6 +466,24 @@ impl Family for PooledFam {
                 keep.push((sess, l));
             }
             tokio::time::sleep(Duration::from_secs(case.idle_s as u64)).await;
+            // nothing has been idle for the 60 s timeout yet: whatever housekeeping ran in the meantime, every
+            // session is still pooled and open - a session that is gone would have to be dialled again
+            if case.idle_s < 59 {
+                let pooled = pool.idle_count().await;
+                let open = keep.iter().filter(|(s, _)| !s.is_closed()).count();
+                if pooled != n_sessions || open != n_sessions {
+                    return Err(Fail::new(
+                        "C13.reuse",
+                        "C13.reuse:pooled-session-dropped-early",
+                        format!(
+                            "{n_sessions} healthy sessions were pooled; after {} s idle (idle timeout 60 s, housekeeping every {} s, minimum {}) the pool holds {pooled} and {open} are still open - the others will have to be dialled again",
+                            case.idle_s,
+                            case.periodic_s.map(|s| s.to_string()).unwrap_or("-".into()),
+                            case.min_idle
+                        ),
+                    ));
+                }
+            }
             // housekeeping and a request at the same time
             let healthy_pooled = |keep: &Vec<(Arc<anytls_rs::session::Session>, crate::lab_mem::Link)>| keep.iter().filter(|(s, _)| !s.is_closed()).count();
             let before = healthy_pooled(&keep);
@@ -514,6 +537,7 @@ impl Family for PooledFam {
         let raced = res?;
         out.nt(raced && !case.slow_closers.is_empty());
         out.class_if(raced, "request-during-housekeeping");
+        out.class_if(case.periodic_s.is_some_and(|p| p < case.idle_s) && case.idle_s < 59, "periodic-housekeeping-ticked-before-the-timeout");
         out.class_if(case.slow_closers.iter().any(|m| *m >= 60) && case.idle_s > 60, "housekeeping-holds-the-pool>=60ms");
         Ok(out)
     }
